@@ -19,7 +19,7 @@ func labIso(e labEnv) {
 	tags := map[string]int{}
 	n := 600
 	if e.thorough() {
-		n = 6000
+		n = 30000
 	}
 	counters := []uint32{0, 1, 65535, 65536, 0xfffffe00, 0xffffffff, 0xfffffff0, 0x7fffffff}
 	for i := 0; i < n; i++ {
